@@ -109,6 +109,10 @@ pub static MID_PROBE: Mutex<Option<Probe>> = Mutex::new(None);
 /// and to record every change of it with the access that caused it (`[abs-point]`).
 pub type AbsProbe = Box<dyn Fn(usize, usize, &TraceEv) + Send>;
 pub static ABS_PROBE: Mutex<Option<AbsProbe>> = Mutex::new(None);
+/// how long the controller waits for a worker to reach its next hook before it calls the run stuck
+pub const STEP_WATCHDOG_SECS: u64 = 6;
+/// runs of this process that ended that way (the process stops generating cases after a few)
+pub static STUCK_OUTSIDE_HOOKS: AtomicUsize = AtomicUsize::new(0);
 /// Solo policy with `after_store = Some(0)`: the reader starts to run alone right after another
 /// thread has overwritten a cell that held one of these objects (the tree bins present when the
 /// run started): the moment a tree bin has just been forwarded / replaced
@@ -120,6 +124,16 @@ pub static GLOBAL_HOOKS: GlobalHooks = GlobalHooks;
 
 pub fn install() {
     flurry::verif::install(&GLOBAL_HOOKS);
+}
+
+/// A preemption point inside user code that the map calls back (the remapping function of
+/// `compute_if_present`, the predicate of `retain`): user code may take arbitrarily long, so the
+/// scheduler may run any other thread here. Whatever the map promises to hold across the callback
+/// (C08: no update of the same key takes effect between the read and the write) must hold then.
+#[track_caller]
+pub fn user_code_yield(what: &'static str) {
+    use flurry::verif::{Event, Hooks};
+    GLOBAL_HOOKS.event(&Event { kind: Kind::Yield, addr: 0, a: 0, b: 0, ord: None, ord_fail: None, what, size: 0, guarded: 2, loc: std::panic::Location::caller() });
 }
 
 fn current() -> Option<Arc<Sched>> {
@@ -348,14 +362,24 @@ impl Sched {
     }
 
     /// controller: let `tid` run until its next yield point (or its end)
-    pub fn step(&self, tid: usize) {
+    pub fn step(&self, tid: usize) -> bool {
         let mut g = self.inner.lock().unwrap();
         assert!(g.current.is_none());
         g.current = Some(tid);
         self.cv.notify_all();
+        // A worker that holds the baton must come back at its next hook. One that does not — it
+        // blocks in a real lock acquisition that no hook announces, e.g. re-taking a mutex it had
+        // released around a call-back while the thread that holds it now is suspended — would hang
+        // the whole process: give up after a while and report it (`false`).
+        let t0 = std::time::Instant::now();
         while g.current.is_some() {
-            g = self.cv.wait(g).unwrap();
+            let (g2, _) = self.cv.wait_timeout(g, std::time::Duration::from_millis(200)).unwrap();
+            g = g2;
+            if g.current.is_some() && t0.elapsed() > std::time::Duration::from_secs(STEP_WATCHDOG_SECS) {
+                return false;
+            }
         }
+        true
     }
 
     pub fn trace_len(&self) -> usize {
@@ -584,7 +608,15 @@ pub fn drive(s: &Arc<Sched>, policy: &Policy, rng: &mut crate::types::Rng, budge
                 *en.iter().max_by_key(|t| prio[**t]).unwrap()
             }
         } };
-        s.step(pick);
+        if !s.step(pick) {
+            let at = {
+                let g = s.inner.lock().unwrap();
+                g.trace.iter().rev().find(|e| e.tid == pick).map(|e| format!("{:?} {} at {}:{}", e.kind, e.what, e.file, e.line)).unwrap_or_default()
+            };
+            STUCK_OUTSIDE_HOOKS.fetch_add(1, Ordering::SeqCst);
+            let blocked = vec![(pick, format!("blocked OUTSIDE any hook for {} s after its access `{}` while every other thread is suspended: it waits for a lock no hook announces (a mutex released around a call-back and re-taken, a lock taken in an unexpected place) that a suspended thread holds", STEP_WATCHDOG_SECS, at))];
+            return RunOutcome { deadlock: true, budget_exceeded: false, steps, schedule, blocked, solo_steps, solo_blocked };
+        }
         if matches!(policy, Policy::RandomAfterWrite) && hold.is_none() {
             let wrote = {
                 let g = s.inner.lock().unwrap();
